@@ -862,17 +862,25 @@ class Env:
                  p.get('status'))
                 for i, p in rec['parts'].items())) + (
                     rec.get('targeted', False), rec.get('hit', False))
-            if rec['kind'] == 'apply':
-                st = (h._accepted, nm(h._worker_pid), rel(h._time_accepted),
-                      h._cancelled, h._terminated)
-            elif rec['kind'] in ('map', 'starmap'):
-                st = (tuple(h._accepted), tuple(nm(x) for x in h._worker_pid),
-                      h._number_left, tuple(rel(x) for x in h._time_accepted))
-            else:
-                st = (h._index, h._length, len(h._items),
-                      tuple(sorted(map(repr, h._unsorted))),
-                      tuple(sorted((repr(k), nm(v))
-                                   for k, v in h._owners.items())),
+            try:
+                if rec['kind'] == 'apply':
+                    st = (h._accepted, nm(h._worker_pid),
+                          rel(h._time_accepted), h._cancelled, h._terminated)
+                elif rec['kind'] in ('map', 'starmap'):
+                    st = (tuple(h._accepted),
+                          tuple(nm(x) for x in h._worker_pid),
+                          h._number_left,
+                          tuple(rel(x) for x in h._time_accepted))
+                else:
+                    st = (h._index, h._length, len(h._items),
+                          tuple(sorted(map(repr, h._unsorted))),
+                          tuple(sorted((repr(k), nm(v))
+                                       for k, v in h._owners.items())),
+                          rec.get('exhausted', False), len(rec['nexts']))
+            except AttributeError:
+                # a private attribute was renamed: describe the handle by
+                # everything it holds, whatever it is called
+                st = (_generic_canon(h, nm, rel),
                       rec.get('exhausted', False), len(rec['nexts']))
             wl = getattr(h, '_worker_lost', None)
             J.append((self.outcome(rec), st, parts, rec['discarded'],
@@ -899,9 +907,19 @@ class Env:
                   len(pool._taskqueue.queue))
         dirty = ()
         thd = pool._timeout_handler
-        if thd is not None and thd._it is not None and \
-                thd._it.gi_frame is not None:
-            dirty = tuple(sorted(thd._it.gi_frame.f_locals.get('dirty', ())))
+        if thd is not None:
+            # the scan generator's set of jobs already notified, under
+            # whatever names the attribute and the local go by
+            import types as _types
+            for g in vars(thd).values():
+                if isinstance(g, _types.GeneratorType) and \
+                        g.gi_frame is not None:
+                    loc = g.gi_frame.f_locals
+                    sets = [v for k, v in sorted(loc.items())
+                            if isinstance(v, (set, frozenset))]
+                    dirty = tuple(tuple(sorted(map(repr, v))) for v in sets)
+                    if 'dirty' in loc:
+                        dirty = tuple(sorted(loc['dirty']))
         pl = pool._putlock
         dead = tuple(sorted((names.get(w.pid, 'gone'), w.vp.state, w.status)
                             for w in self.workers.values()
@@ -914,6 +932,8 @@ class Env:
                 rel(self.outq_times[0]) if self.outq_times else None)
 
     # --------------------------------------------------------------- settle
+    # (see _generic_canon below the class for the name-independent fallback)
+
     def settle(self, rounds=140):
         """Deterministic closure: let everything that can still happen,
         happen (no new faults), then let the lost-worker timeouts pass."""
@@ -1157,3 +1177,38 @@ def replay_history(cfg, hist, verbose=True):
         return env.violation, env.signature
     finally:
         env.teardown()
+
+
+
+def _generic_canon(obj, nm, rel, depth=0):
+    """Name-independent description of a result handle: every attribute,
+    with worker pids replaced by pool-slot names and absolute times made
+    relative; callables, locks and back references reduced to their type."""
+    import collections as _c
+
+    def val(v, d):
+        if v is None or isinstance(v, (bool, str, bytes)):
+            return v
+        if isinstance(v, int):
+            return nm(v) if 100 <= v < 1000000 else v
+        if isinstance(v, float):
+            return rel(v) if v >= 1000.0 else v
+        if d > 4:
+            return type(v).__name__
+        if isinstance(v, (tuple, list, _c.deque)):
+            return tuple(val(x, d + 1) for x in v)
+        if isinstance(v, (set, frozenset)):
+            return tuple(sorted((val(x, d + 1) for x in v), key=repr))
+        if isinstance(v, dict):
+            if len(v) > 50:
+                return ('dict', len(v))
+            return tuple(sorted(((repr(k), val(x, d + 1))
+                                 for k, x in v.items()), key=repr))
+        return type(v).__name__
+    out = []
+    for k in sorted(vars(obj)):
+        v = vars(obj)[k]
+        if k in ('_cache', '_job') or callable(v):
+            continue
+        out.append((k, val(v, depth + 1)))
+    return tuple(out)
